@@ -9,8 +9,9 @@ import client_common as cc
 
 PID = "C05"
 REQ_TYPES = [1, 2, 3, 20, 21, 22, 23, 24, 25, 26, 40, 41, 42, 43, 44, 45, 60, 64, 1023]
-SIZES_Q = [0, 1, 2, 9, 10, 11, 255, 256, 257, 4096, 65535, 65536, 65537]
-SIZES_T = SIZES_Q + [655359, 655360, 655361, 1 << 20]
+SIZES_Q = [0, 1, 2, 9, 10, 11, 255, 256, 257, 4096]
+BIG_Q = [65535, 65536, 65537]
+BIG_T = BIG_Q + [655359, 655360, 655361, 1 << 20]
 
 
 def resp_type(t):
@@ -21,7 +22,7 @@ def gen_script(rnd, sid, family, thorough):
     version = 2 if rnd.random() < 0.3 else 1
     b = cc.SB(sid, version=version)
     b.connect(cur=rnd.choice([1, 2]), mx=2)
-    sizes = SIZES_T if thorough else SIZES_Q
+    big = BIG_T if thorough else BIG_Q
     tagc = [rnd.randrange(1, 1 << 20) * 64]
     used_types = set()
     nextc = [1]
@@ -32,7 +33,10 @@ def gen_script(rnd, sid, family, thorough):
         return tagc[0]
 
     def size():
-        return rnd.choice(sizes) if rnd.random() < 0.8 else rnd.randrange(0, 5000)
+        r = rnd.random()
+        if r < (0.2 if thorough else 0.06):
+            return rnd.choice(big)
+        return rnd.choice(SIZES_Q) if r < 0.8 else rnd.randrange(0, 5000)
 
     def start(expect, api=None):
         c = nextc[0]
@@ -152,6 +156,94 @@ def gated_script(rnd, sid):
     return sc
 
 
+def wtimeout_script(rnd, sid):
+    """a Write of the client runs into a timeout after k bytes (timeout-class net.Error, the connection itself stays
+    usable): inside a header (k = 1..9) or inside a payload. The raw wire must remain whole frames plus at most one
+    unfinished frame at the very end. Go only; the peer takes raw bytes."""
+    b = cc.SB(sid, version=1)
+    b.connect_step["client_timeout_ms"] = 5000       # WithTimeout client (deadlines far away: the fault is injected)
+    b.connect()
+    tag = rnd.randrange(1, 1 << 20) * 64
+    if rnd.random() < 0.7:                            # a complete frame first
+        b.send(1, rnd.choice(REQ_TYPES), rnd.choice([0, 3, 200]), tag + 1, expect=False)
+        b.op("drain_raw")
+    n = rnd.choice([1, 8, 40, 300])
+    in_payload = rnd.random() < 0.35
+    if in_payload:
+        k = rnd.randrange(0, n)
+        b.op("write_fail", kind="timeout", after=k, in_payload=True)
+        b.send(2, rnd.choice(REQ_TYPES), n, tag + 2, expect=False)
+        b.op("peer_read", n=10)
+        if k:
+            b.op("peer_read", n=k)
+    else:
+        k = rnd.randrange(1, 10)
+        b.op("write_fail", kind="timeout", after=k)
+        b.send(2, rnd.choice(REQ_TYPES), n, tag + 2, expect=False)
+        b.op("peer_read", n=k)
+    b.op("drain_raw")
+    if rnd.random() < 0.5:
+        b.keepalive(rnd.randrange(1 << 32))
+        b.op("drain_raw")
+    b.op("state")
+    sc = b.script()
+    sc["family"] = "wtimeout"
+    sc["step_ms"] = 1000
+    return sc
+
+
+def wdeadline_script(rnd, sid):
+    """the same with a real deadline: WithTimeout client, the peer takes 1..9 header bytes, stalls for longer than the
+    write deadline and then reads on"""
+    b = cc.SB(sid, version=1)
+    b.connect_step["client_timeout_ms"] = 250
+    b.connect()
+    tag = rnd.randrange(1, 1 << 20) * 64
+    b.send(1, rnd.choice(REQ_TYPES), rnd.choice([6, 40]), tag + 1, expect=False)
+    b.op("peer_read", n=rnd.randrange(1, 10))
+    b.op("sleep", ms=330)
+    b.op("drain_raw")
+    b.op("state")
+    sc = b.script()
+    sc["family"] = "wdeadline"
+    sc["step_ms"] = 1000
+    return sc
+
+
+def cancel_held_script(rnd, sid):
+    """request A is in the write loop's hands (header written, payload not yet — or nothing written yet because the
+    peer does not read) when A's caller gives up; another caller then sends B; A's frame must still carry A's bytes"""
+    b = cc.SB(sid, version=1)
+    b.connect()
+    tag = rnd.randrange(1, 1 << 20) * 64
+    n = rnd.choice([4, 33, 500, 5000])
+    m = rnd.choice([1, 4, n, max(1, n // 2)])
+    gate = rnd.random() < 0.6
+    if gate:
+        b.op("gate_payload")
+    b.send(1, rnd.choice(REQ_TYPES), n, tag + 1, expect=False)
+    if gate:
+        b.op("expect_header")
+    b.cancel(1)
+    tb = rnd.choice([t for t in REQ_TYPES if t != b.reqs[1]["typ"]])
+    b.send(2, tb, m, tag + 2, expect=False)
+    if gate:
+        b.op("release_payload")
+        b.op("expect_rest")
+        b.nseen += 1
+    else:
+        b.expect()
+    b.req_index[2] = b.nseen
+    b.expect()
+    b.reply_to(2, 1023, 5, tag + 3)
+    b.wait(2)
+    b.op("drain")
+    sc = b.script()
+    sc["family"] = "cancel-held"
+    sc["procs"] = 1
+    return sc
+
+
 # ---------------------------------------------------------------- static: who writes to the connection?
 READ_USE = re.compile(r"io\.ReadFull\(\s*c\.conn|io\.ReadAtLeast\(\s*c\.conn|io\.LimitReader\(\s*c\.conn|io\.Copy(N|Buffer)?\(\s*io\.Discard\s*,\s*c\.conn|"
                       r"c\.conn\.Read\(|c\.conn\.Set(Read|Write)?Deadline\(|c\.conn\.(Remote|Local)Addr\(|bufio\.NewReader(Size)?\(\s*c\.conn|"
@@ -254,12 +346,15 @@ def run(tier, seed, replay=None):
     if replay:
         rp_data = json.load(open(replay))
         scripts = [rp_data["script"]] if "script" in rp_data else []
-        if scripts and scripts[0].get("family") == "close-payload":
+        if scripts and scripts[0].get("family") in ("close-payload", "gated", "wtimeout", "wdeadline", "cancel-held"):
             pred_only, scripts = scripts, []
     else:
         scripts = gen_scripts(seed, 2500 if thorough else 400, thorough)
         rg = random.Random(seed + 11)
-        pred_only = [close_payload_script()] + [gated_script(rg, "c05-gated-%d" % i) for i in range(120 if thorough else 24)]
+        pred_only = ([close_payload_script()] + [gated_script(rg, "c05-gated-%d" % i) for i in range(120 if thorough else 24)]
+                     + [wtimeout_script(rg, "c05-wtimeout-%d" % i) for i in range(120 if thorough else 24)]
+                     + [wdeadline_script(rg, "c05-wdeadline-%d" % i) for i in range(8 if thorough else 3)]
+                     + [cancel_held_script(rg, "c05-cancelheld-%d" % i) for i in range(120 if thorough else 24)])
     scripts = cc.staged(exe, scripts, lambda s_, g_: bool(cc.pred_c05(cc.go_view(s_, g_))))
     go, logs = cc.run_go(exe, scripts, shards=8)
     flag, diffs, counts = cc.pick_variant(scripts, go) if scripts else ((False, False), [], {})
@@ -314,7 +409,12 @@ def run(tier, seed, replay=None):
                 cc.crash_violation(res, PID, s, g)
             continue
         view = cc.go_view(s, g)
-        found = list(cc.pred_c05(view))
+        if s["family"] in ("wtimeout", "wdeadline"):
+            # judged on the raw bytes; a trailing unfinished frame is what a failed Write leaves behind
+            found = list(cc.judge_raw(s, g, view))
+            nontriv.add((s["id"], (g.get("final") or {}).get("raw_len", 0)))
+        else:
+            found = list(cc.pred_c05(view))
         if s["family"] == "gated":
             n_gated += 1
             nka = sum(1 for st in s["steps"] if st["op"] == "keepalive")
